@@ -70,23 +70,27 @@ def run_templates(ctx):
     """observed templates executed in Coq vs dec_follow and vs cdec (both implementations).  Returns #executions."""
     fam = X.family()
     r = ctx.rng("cdtpl")
-    step = 3 if ctx.tier == "quick" else 1
+    quick = ctx.tier == "quick"
+    step = 4 if quick else 1
+    sub = 8 if quick else 4       # shapes run at the second argument position (tables hold every 4th shape)
     off = r.randrange(step)
     exprs, meta = [], []
     for i, t in enumerate(fam):
-        if i % step != off and i % 4:
+        if i % step != off and i % sub:
             continue
         v = A.gen_value(r, t, r.choice(["max", "rand"]))
         ct, cv = A.coq_ty(t), A.coq_val(t, v)
         for loc, code in (("cd", "false"), ("code", "true")):
             for k in X.POS:
                 full = (loc, k) in (("cd", 0), ("code", 1))
-                if (full and i % step != off) or (not full and i % 4):
+                if (full and i % step != off) or (not full and i % sub):
                     continue
                 idx = i if full else i // 4
                 tt = ("tuple", (("uint", 256),) * k + (t,))
                 base = A.py_enc(tt, [7] * k + [v], 0)
                 cs = corruption_terms(r, base)
+                if quick:
+                    cs = cs[:4] + r.sample(cs[4:], min(len(cs) - 4, 12))
                 cl = "[" + "; ".join(cs) + "]"
                 pre = "[112; 160; 130; 49]" if loc == "cd" else f"(repeat 91 {INITCODE_LEN})"
                 b0 = 4 if loc == "cd" else INITCODE_LEN
